@@ -57,3 +57,36 @@ def register(reg):
                1: LoopSpec('for key, value in flush_data.adds.items()', invariants=[('no-commit-yet', 'self.utxo_db.g_commits == old(self.utxo_db.g_commits)')],
                            modifies=['batch.g_ops'])},
         props=['C04', 'C05', 'C01'])
+
+    # ---- DB.flush_backup: order of the two commits of a backed-up block (C05, C03) -------------------------------------------
+    HIST = 'electrumx/server/history.py:History'
+    reg.classes[DBK].fields['last_flush_state'] = Obj(ST)
+    reg.contract(HIST + '.assert_flushed', params={}, raises={'AssertionError': []}, assumes_inv=False, maintains_inv=False,
+                 ensures=['forall(lambda x=Bytes: x not in self.unflushed)'],
+                 trusted='A-CALLEE: History.assert_flushed is `assert not self.unflushed`')
+    reg.contract(HIST + '.backup', params={'hashXs': Set(KBytes), 'tx_count': Int}, raises={},
+                 modifies=['self.db.g_map', 'self.db.g_commits', 'self.flush_count'], assumes_inv=False, maintains_inv=False,
+                 ensures=['self.db.g_commits == old(self.db.g_commits) + 1'],
+                 trusted='A-CALLEE: History.backup trims the histories of the given script hashes in ONE write batch of the history '
+                         'database (its content: bounded stand-in of C03)')
+    reg.contract(DBK + '.log_flush_stats', params={'prefix': KStr, 'flush_data': Obj(FD), 'elapsed': Real}, returns=Int, raises={},
+                 assumes_inv=False, maintains_inv=False, trusted='A-CALLEE: DB.log_flush_stats only logs')
+    reg.contract(
+        DBK + '.flush_backup', params={'flush_data': Obj(FD), 'touched': Set(KBytes)},
+        requires=['flush_data.state.height >= 0'],
+        raises={'AssertionError': ['self.utxo_db.g_commits == old(self.utxo_db.g_commits)',
+                                   'self.history.db.g_commits == old(self.history.db.g_commits)']},      # refused before any write
+        assumes_inv=False, maintains_inv=False,
+        modifies=['self.utxo_db.g_map', 'self.utxo_db.g_commits', 'self.history.db.g_map', 'self.history.db.g_commits',
+                  'self.history.flush_count', 'self.state', 'self.last_flush_state', 'self.fs_height', 'self.fs_tx_count',
+                  'self.header_mc.length', 'self.header_mc.level', 'flush_data.adds', 'flush_data.deletes', 'flush_data.undo_infos'],
+        ghost={('before', 'self.flush_utxo_db(flush_data)'):
+               ['check("history-rolled-back-before-the-utxo-commit", self.history.db.g_commits == old(self.history.db.g_commits) + 1 and '
+                'self.utxo_db.g_commits == old(self.utxo_db.g_commits))'],
+               ('before', 'self.history.backup(touched, flush_data.state.tx_count)'):
+               ['check("file-pointers-moved-first", self.fs_height == flush_data.state.height and self.fs_tx_count == flush_data.state.tx_count)']},
+        ensures=[('two-commits', 'self.history.db.g_commits == old(self.history.db.g_commits) + 1 and '
+                                 'self.utxo_db.g_commits == old(self.utxo_db.g_commits) + 1'),
+                 ('state-moved-back', 'self.state.height == flush_data.state.height and self.state.tx_count == flush_data.state.tx_count'),
+                 ('pointers', 'self.fs_height == flush_data.state.height and self.fs_tx_count == flush_data.state.tx_count')],
+        props=['C05', 'C03'])
